@@ -413,6 +413,39 @@ fn length_edit_inputs<F: GenFam>(rng: &mut Rng, npackets: usize, f: &mut dyn FnM
     }
 }
 
+/// the frame with its remaining length changed by `delta` and the body padded with a zero byte / cut accordingly
+fn reframe(b: &[u8], delta: i64) -> Option<Vec<u8>> {
+    if b.len() < 2 {
+        return None;
+    }
+    let mut w = 0usize;
+    let mut rl = 0usize;
+    loop {
+        let x = *b.get(1 + w)?;
+        rl |= ((x & 0x7F) as usize) << (7 * w);
+        w += 1;
+        if x & 0x80 == 0 {
+            break;
+        }
+        if w == 4 {
+            return None;
+        }
+    }
+    let body = &b[(1 + w).min(b.len())..];
+    if body.len() != rl || (delta < 0 && rl == 0) {
+        return None;
+    }
+    let mut v = vec![b[0]];
+    v.extend(crate::topic::varint((rl as i64 + delta) as usize));
+    if delta > 0 {
+        v.extend_from_slice(body);
+        v.push(0);
+    } else {
+        v.extend_from_slice(&body[..body.len() - 1]);
+    }
+    Some(v)
+}
+
 fn catalogue_inputs<F: GenFam>(rng: &mut Rng, npackets: usize, f: &mut dyn FnMut(&[u8])) {
     let mut b = Budget { big: 0, huge: 0 };
     let types = F::types();
@@ -425,13 +458,95 @@ fn catalogue_inputs<F: GenFam>(rng: &mut Rng, npackets: usize, f: &mut dyn FnMut
             if let Some(fr) = crate::tokens::tokenize(F::NAME, &e) {
                 for m in crate::tokens::catalogue(&fr, rng) {
                     f(&m.bytes);
+                    // TWO faults at once: the malformed frame re-framed one byte longer / shorter (which of the two
+                    // errors a front-end reports is part of C06), and followed by a few bytes of the next packet
+                    // (an inner length past the frame then reads into them)
+                    if let Some(v) = reframe(&m.bytes, 1) {
+                        f(&v);
+                    }
+                    if let Some(v) = reframe(&m.bytes, -1) {
+                        f(&v);
+                    }
+                    let mut v = m.bytes.clone();
+                    v.push(0xC0);
+                    f(&v);
+                    v.push(0x00);
+                    f(&v);
                 }
             }
         }
     }
 }
 
+/// declared lengths far beyond the usual boundary packets, complete and cut short, through the three front-ends:
+/// only the KIND of outcome is recorded (the inputs are too large to travel as JSON)
+fn big_dec_events<F: Fam>(out: &mut Out, tier: &str) {
+    let mut sizes = vec![4194303usize, 4194304, 4194305, 8388609, 16777217];
+    if tier == "thorough" {
+        sizes.extend([33554433usize, 268435455]);
+    }
+    for rl in sizes {
+        let mut body = vec![0u8, 1, b'a'];
+        if F::NAME == "v5" {
+            body.push(0);
+        }
+        let hdr_fields = body.len();
+        body.resize(rl, 0x55);
+        let full = crate::topic::frame(0x30, &body);
+        let w = full.len() - rl;
+        for (label, input, chunk) in [("complete", &full[..], (1usize << 20) + 7), ("cut-after-2-body-bytes", &full[..w + hdr_fields + 2], 1usize),
+                                      ("cut-in-the-middle", &full[..w + rl / 2], (1usize << 22) - 1)] {
+            // no JSON of the packets: outcome kinds, and equality of the decoded values computed here
+            let arc = Arc::new(input.to_vec());
+            fn kind_of_err<F: Fam>(e: &F::Error) -> &'static str {
+                if F::err_json(e)["eof"].as_bool() == Some(true) { "eof" } else { "err" }
+            }
+            let (kb, pb) = match guarded(|| F::decode(input)) {
+                Err(_) => ("panic", None),
+                Ok(Ok(Some(p))) => ("ok", Some(p)),
+                Ok(Ok(None)) => ("incomplete", None),
+                Ok(Err(e)) => (kind_of_err::<F>(&e), None),
+            };
+            let ra = guarded(|| {
+                let mut rd = ScriptedReader::new(arc.clone(), vec![], RStep::Data(chunk));
+                rd.logging = false;
+                let (o, _) = drive(F::decode_async(&mut rd), MAX_POLLS);
+                (o, rd.pos)
+            });
+            let (ka, pa, pos) = match ra {
+                Err(_) => ("panic", None, 0),
+                Ok((None, p)) => ("spin", None, p),
+                Ok((Some(Ok(p)), q)) => ("ok", Some(p), q),
+                Ok((Some(Err(e)), q)) => (kind_of_err::<F>(&e), None, q),
+            };
+            let poll_with = |pending: bool| {
+                let r = guarded(|| {
+                    let mut st: GenericPollPacketState<F::Header> = Default::default();
+                    let script: Vec<RStep> = if pending { (0..64).flat_map(|_| [RStep::Pending, RStep::Data(chunk)]).collect() } else { vec![] };
+                    let mut rd = ScriptedReader::new(arc.clone(), script, RStep::Data(chunk));
+                    rd.logging = false;
+                    let (o, _) = drive(GenericPollPacket::new(&mut st, &mut rd), MAX_POLLS);
+                    o
+                });
+                match r {
+                    Err(_) => ("panic", None, 0usize),
+                    Ok(None) => ("spin", None, 0),
+                    Ok(Some(Ok((total, _body, p)))) => ("ok", Some(p), total),
+                    Ok(Some(Err(e))) => (kind_of_err::<F>(&e), None, 0),
+                }
+            };
+            let (kp, pp, total) = poll_with(false);
+            let (kq, pq, _t2) = poll_with(true);
+            out.ev(json!({"ev": "BigDec", "fam": F::NAME, "rl": rl, "input": label, "len": input.len(), "complete": label == "complete",
+                          "kinds": [kb, ka, kp, kq], "same_packet": pb == pa && pa == pp && pp == pq,
+                          "total": total, "pos": pos}));
+        }
+    }
+}
+
 pub fn record_dec3(out: &mut Out, tier: &str, seed: u64) {
+    big_dec_events::<V3>(out, tier);
+    big_dec_events::<V5>(out, tier);
     let n = if tier == "thorough" { 150000 } else { 5000 };
     let mut rng = Rng::new(seed ^ 0xC06);
     let mut b = Budget { big: 60, huge: 0 };
@@ -1051,10 +1166,11 @@ fn fault_events<F: Fam>(out: &mut Out, rng: &mut Rng, p: &F::Packet) {
                 if k == n && !is_eof_step {
                     // a read fault after the last byte is never observed by a decoder that stops at the frame end
                 }
-                // decoders: deliver k bytes, then the fault
+                // decoders: deliver k bytes, then the fault (the end of the stream both as a 0-byte read and, every
+                // other time, as an ERROR of kind UnexpectedEof, as TLS streams report a missing close_notify)
                 if k < n {
                     let chunk = if rng.bool() { usize::MAX } else { 1 + rng.below(4) as usize };
-                    let step = if is_eof_step { RStep::Eof } else { RStep::Err(*kind) };
+                    let step = if is_eof_step && (k % 2 == 0) { RStep::Eof } else { RStep::Err(*kind) };
                     let pend_first = rng.chance(1, 3);
                     for front in ["async", "poll"] {
                         let r = guarded(|| {
@@ -1134,6 +1250,15 @@ fn conv_events(out: &mut Out) {
     for e in protos {
         let io: std::io::Error = e.clone().into();
         out.ev(json!({"ev": "Conv", "dir": "proto", "err": err3_to_json(&e), "back": io_kind_name(io.kind())}));
+        // ... and that io::Error given to the codec again (a layered transport that itself speaks MQTT): it is an I/O
+        // error of the kind it has, whatever it carries
+        let k = io.kind();
+        let again: E = io.into();
+        let io2: std::io::Error = e.clone().into();
+        let again5: mqtt_proto::v5::ErrorV5 = io2.into();
+        let back: std::io::Error = again.clone().into();
+        out.ev(json!({"ev": "Conv", "dir": "io", "kind": io_kind_name(k), "as_v3": err3_to_json(&again),
+                      "as_v5": err5_to_json(&again5), "back": io_kind_name(back.kind()), "eof3": again.is_eof(), "eof5": again5.is_eof()}));
     }
 }
 
